@@ -75,11 +75,15 @@ SCHEMA_URL = "file:///sim/schema/c05.xml"
 
 NAMES = ["a", "b", "ab"]
 SPELL = {"a": ["a", "A"], "b": ["B", "b"], "ab": ["aB", "AB", "ab", "Ab"]}
-BAD_NAMES = ["1a", "a-b", "a.b", "é", "$a", "${B}", "$$a", "a$b"]
+# unusual names; the model decides which are legal (NBSP is left out: the
+# parser splits the directive argument on any Unicode white space)
+BAD_NAMES = ["1a", "a-b", "a.b", "é", "$a", "${B}", "$$a", "a$b", "aé", "b²",
+             "a١", "größe", "_", "a_1"]
 ENV_SET = "ZCSIM_E1"
 ENV_UNSET = "ZCSIM_E2"
 USE_STYLES = ["$%s", "${%s}", "p${%s}q", "$%s$%s", "$%s.x", "$%s-y",
-              "x$%s", "$$$%s", "${%s}${%s}"]
+              "x$%s", "$$$%s", "${%s}${%s}", "$%sé", "$%s²", "$%s١",
+              "$%sさん"]
 TOPS = ["file:///sim/c05/d1/top.conf", "http://sim.test/c05/d1/top.conf"]
 REFS = ["f%d.conf", "sub/f%d.conf", "../f%d.conf",
         "http://other.test/inc/f%d.conf", "file:///sim/abs/f%d.conf"]
